@@ -592,7 +592,7 @@ func C04(tier string) int {
 		} else {
 			progs = explore.Pairs(len(sc.Ops()))
 		}
-		runE1(rep, sc, explore.Config{Programs: progs})
+		runE1(rep, sc, explore.Config{Programs: progs, SkipRejectedPrefix: true})
 	}
 	run(newFkScenario(fkSelfIdxNullable, nil, []string{"w1", "w1x", "w3"}, "plain ids"))
 	selfCascade := newFkScenario(fkSelfCascade, nil, []string{"w1", "w1x", "w3"}, "plain ids")
